@@ -31,16 +31,23 @@ Input space / bound
                  (all 1; seeded draws from {0,1,2,3,6}; seeded sparse draws from {0,0,0,1,4}) x rotating
                  (grid, prior kind) from 4 grids x {lognorm, gamma, synthetic-with-zeros}
                  quick: all 31 trees with 2-4 leaves + 20 seeded 5-leaf trees;  thorough: all 267 trees with 2-5 leaves
-  ARGs           msprime simulations with recombination (nodes with several parents and several edges to the same
-                 parent), 3-7 haploid or 3 diploid samples, 20 kb, plus a collapsed-polytomy input;
-                 quick: 14 inputs (<= ~45 nodes);  thorough: 80 inputs.  Priors: tsdate.build_prior_grid with 4-8
+  ARGs           msprime simulations with recombination 1e-6..5e-6 (nodes with several parents and several edges to
+                 the same parent), 3-7 haploid or 3 diploid samples, 20 kb, plus collapsed-polytomy single trees
+                 (mutations thinned to 1 in 8);
+                 quick: 14 inputs (<= 50 nodes);  thorough: 200 inputs.  Priors: tsdate.build_prior_grid with 4-8
                  quantile timepoints or an explicit grid, lognorm / gamma.
   options        both probability spaces for every input; eps rotating over {1e-8 (default), 1e-3, 1.0, 0}; mutation
                  rate rotating over {nominal, 4 x nominal}.
   `exhaustive` is False (the ARG part is sampled; the single-tree part of the thorough tier is exhaustive in trees).
 
-Runs whose inside rows contain NaN (an infeasible model: only with eps = 0, where an edge carrying mutations cannot
-have zero length) are skipped and counted in the notes - the rule is undefined there.
+Inputs whose model is infeasible (no assignment with positive weight: happens only with eps = 0, where an edge
+carrying mutations cannot have zero length; decided by an independent smallest-admissible-index pass, see
+`model_feasible`) are skipped and counted in the notes - the rule is undefined there (tsdate then produces NaN
+inside rows or raises "dangling nodes").  On a feasible model an exception or a NaN inside row is a failure, with
+one exception: a LINEAR-space run during which numpy reported floating-point under/overflow (recorded through
+np.errstate(under="call", over="call")) and whose inside rows contain NaN has left the double range (the
+documented limitation of linear space); "its inside value" is then NaN, the rule is undefined, and the run is
+skipped and counted (seen only on single trees carrying several hundred mutations, which are thinned here).
 
 NOT covered: inputs with more than ~50 nodes; grids with more than ~12 points; historical samples (rejected by the
 discrete methods); correctness of the inside values (C10/C12); the least-squares part of the constraint (C03/C27).
@@ -91,6 +98,37 @@ def edge_records(ts):
                 count[e] += 1
     return [(int(ts.edges_parent[e]), int(ts.edges_child[e]), float(right[e] - left[e]), int(count[e]))
             for e in range(ts.num_edges)]
+
+
+def model_feasible(ts, t, prior_rows, eps):
+    """Does ANY assignment have positive weight?  (prior > 0 at the chosen index, parent index >= child index on
+    every edge, and - only when eps == 0 - a strictly older timepoint across an edge that carries mutations.)
+    All constraints are lower bounds, so giving every node its smallest admissible index (children first) is
+    feasible iff anything is."""
+    samples = set(int(s) for s in ts.samples())
+    down = {}
+    for p, c, _, m in edge_records(ts):
+        down.setdefault(p, []).append((c, m))
+    lo = {}
+
+    def smallest(u):
+        if u in lo:
+            return lo[u]
+        if u in samples:
+            lo[u] = 0
+            return 0
+        need = 0
+        for c, m in down.get(u, []):
+            lc = smallest(c)
+            if lc is None:
+                lo[u] = None
+                return None
+            need = max(need, lc + 1 if (eps == 0 and m > 0) else lc)
+        ok = [i for i in range(need, len(t)) if prior_rows[u][i] > 0]
+        lo[u] = ok[0] if ok else None
+        return lo[u]
+
+    return all(smallest(u) is not None for u in range(ts.num_nodes))
 
 
 def evaluate_rule(ts, t, assigned, inside_rows, log_space, mu, eps, returned_time):
@@ -200,26 +238,33 @@ def make_prior(ts, grid, kind, rng, ne=100):
     return pr
 
 
+SIM_MU = 1e-5
+
+
 def arg_inputs(seed, count, rng):
     """Multi-tree inputs: nodes with several parents.  (name, ts, nominal mutation rate)."""
     out = []
     i = 0
     while len(out) < count:
         kind = i % 5
+        s = seed * 1000 + i
         if kind == 4:
-            ts = inputs.with_polytomy(seed * 1000 + i)
+            ts = inputs.with_polytomy(s).simplify()   # drop the node left without edges
+            keep = np.arange(ts.num_sites) % 8 == 0     # thin the mutations (the shared generator uses mu = 2e-4)
+            ts = ts.delete_sites(np.nonzero(~keep)[0])
             name = f"polytomy{i}"
         elif kind == 3:
-            ts = inputs.diploid_unphased(seed * 1000 + i, n=3)
+            ts = inputs.sim(s, n=3, ploidy=2, rec=2e-6, mu=SIM_MU)
             name = f"diploid{i}"
         else:
             n = 3 + (i % 5)
-            ts = inputs.sim(seed * 1000 + i, n=n, rec=(2e-4 if kind == 1 else 1e-4))
-            name = f"sim{i}_n{n}"
+            rec = (1e-6, 3e-6, 5e-6)[kind]
+            ts = inputs.sim(s, n=n, rec=rec, mu=SIM_MU)
+            name = f"sim{i}_n{n}_rec{rec}"
         i += 1
         if ts.num_nodes > 50 or ts.num_mutations == 0:
             continue
-        out.append((name, ts, 2e-4))
+        out.append((name, ts, 2.5e-5 if kind == 4 else SIM_MU))
     return out
 
 
@@ -228,10 +273,16 @@ def run_input(rep, state, name, ts, pr, mu, eps, desc):
     import tsdate
     t = np.array(pr.timepoints, dtype=float)
     key = name
+    rows = {int(u): np.array(pr[u], dtype=float) for u in pr.nonfixed_nodes}
+    if not model_feasible(ts, t, rows, eps):
+        state["skipped_infeasible"] += 1      # no assignment has positive weight: the rule is undefined
+        return
     for space in ("linear", "logarithmic"):
         d = dict(desc, probability_space=space, eps=eps, mutation_rate=mu, timepoints=t)
+        underflow = []
+        old_call = np.seterrcall(lambda kind, flag: underflow.append(kind))
         try:
-            with warnings.catch_warnings():
+            with warnings.catch_warnings(), np.errstate(under="call", over="call"):
                 warnings.simplefilter("ignore")
                 dated, fit = tsdate.maximization(ts, mutation_rate=mu, priors=copy.deepcopy(pr), eps=eps,
                                                  probability_space=space, return_fit=True)
@@ -239,10 +290,12 @@ def run_input(rep, state, name, ts, pr, mu, eps, desc):
             rep.case("other-node-takes-constrained-argmax", False, key=key, input=d,
                      observed=f"{type(e).__name__}: {e}", expected="no exception")
             continue
-        inside = {u: np.array(fit.inside[u], dtype=float) for u in pr.nonfixed_nodes}
-        if any(np.any(np.isnan(r)) for r in inside.values()):
-            state["skipped_infeasible"] += 1
-            continue
+        finally:
+            np.seterrcall(old_call)
+        inside = {u: np.array(fit.inside[u], dtype=float) for u in rows}
+        if space == "linear" and underflow and any(np.any(np.isnan(r)) for r in inside.values()):
+            state["skipped_linear_underflow"] += 1    # numpy reported under/overflow and an inside row is 0/0:
+            continue                                   # linear space left the double range, "its inside value" is NaN
         res, real = evaluate_rule(ts, t, np.array(fit.posterior_mean, dtype=float), inside,
                                   space == "logarithmic", mu, eps, np.array(dated.nodes_time))
         state["runs"] += 1
@@ -255,13 +308,14 @@ def run(req, rep):
     tier, seed = req["tier"], int(req["seed"])
     thorough = tier == "thorough"
     rng = np.random.default_rng(seed)
-    state = {"runs": 0, "skipped_infeasible": 0}
+    state = {"runs": 0, "skipped_infeasible": 0, "skipped_linear_underflow": 0, "multi_parent_nodes": 0,
+             "arg_nodes": 0}
     trees = [s for n in (2, 3, 4) for s in inputs.all_tree_shapes(n)]
     five = list(inputs.all_tree_shapes(5))
     trees += five if thorough else [five[i] for i in sorted(rng.choice(len(five), size=20, replace=False))]
     combos = [(g, p) for g in GRIDS for p in PRIOR_KINDS]
     eps_cycle = [1e-8, 1e-3, 1e-8, 1.0, 0.0]
-    n_arg = 80 if thorough else 14
+    n_arg = 200 if thorough else 14
     rep.space = ("maximization runs in both probability spaces on (a) single trees: leaf-labelled shapes incl. "
                  "polytomies x mutation patterns x (grid, prior) x eps, (b) simulated multi-tree ARGs with "
                  "multi-parent nodes x priors x eps x mutation rate")
@@ -291,13 +345,22 @@ def run(req, rep):
         eps = eps_cycle[k % 5]
         mu = mu0 * (4 if k % 3 == 2 else 1)
         pr = make_prior(ts, grid, kind, rng)
+        parents = {}
+        for p_, c_ in zip(ts.edges_parent, ts.edges_child):
+            parents.setdefault(int(c_), set()).add(int(p_))
+        state["multi_parent_nodes"] += sum(1 for c_, ps in parents.items() if len(ps) > 1 and not ts.node(c_).is_sample())
+        state["arg_nodes"] += ts.num_nodes
         full = f"{name}|grid{k % 4}|{kind}|mu{mu}|eps{eps}"
         desc = {"generator": name, "seed": seed, "prior": kind,
                 "grid": grid if isinstance(grid, int) else grid.tolist(), "population_size": 100,
                 "ts": bounded_api.ts_to_json(ts)}
         run_input(rep, state, full, ts, pr, mu, eps, desc)
-    rep.notes.append(f"{state['runs']} (input, space) runs evaluated; {state['skipped_infeasible']} runs skipped "
-                     f"because the inside rows contain NaN (infeasible eps = 0 model)")
+    rep.notes.append(f"{state['runs']} (input, space) runs evaluated; {state['skipped_infeasible']} inputs skipped "
+                     f"because no assignment has positive weight (infeasible eps = 0 model); "
+                     f"{state['skipped_linear_underflow']} linear-space runs skipped because numpy reported "
+                     f"under/overflow and an inside row became NaN; the {n_arg} ARG inputs have "
+                     f"{state['arg_nodes']} nodes in total, {state['multi_parent_nodes']} non-sample nodes with "
+                     f"more than one distinct parent")
 
 
 if __name__ == "__main__":
